@@ -859,6 +859,56 @@ func goCapture(c *Ctx, g *ssa.Function, short1 string) int {
 		if fn == nil {
 			return
 		}
+		// several goroutines updating one map: the literal (or a module function it hands the map to)
+		// updates a map it captured, the go statement sits in a loop, and nobody takes a lock
+		for bi := range mc.Bindings {
+			if bi >= len(fn.FreeVars) || !inLoop(gi.Block()) || guardedBy(fn) != "" {
+				continue
+			}
+			fv := fn.FreeVars[bi]
+			isMap := func(t types.Type) bool { _, ok := t.Underlying().(*types.Map); return ok }
+			mapVals := map[ssa.Value]bool{}
+			if isMap(fv.Type()) {
+				mapVals[fv] = true
+			} else if p, isPtr := fv.Type().Underlying().(*types.Pointer); isPtr && isMap(p.Elem()) && fv.Referrers() != nil {
+				for _, r := range *fv.Referrers() {
+					if ld, isLd := r.(*ssa.UnOp); isLd && ld.Op.String() == "*" {
+						mapVals[ld] = true
+					}
+				}
+			}
+			if len(mapVals) == 0 {
+				continue
+			}
+			written := ""
+			eachInstr(fn, func(j ssa.Instruction) {
+				switch x := j.(type) {
+				case *ssa.MapUpdate:
+					if mapVals[x.Map] {
+						written = "updates it"
+					}
+				case ssa.CallInstruction:
+					callee := x.Common().StaticCallee()
+					if callee == nil || !inModule(callee) || callee.Blocks == nil || guardedBy(callee) != "" {
+						return
+					}
+					for k, a := range x.Common().Args {
+						if mapVals[a] && k < len(callee.Params) {
+							par := callee.Params[k]
+							eachInstr(callee, func(j2 ssa.Instruction) {
+								if mu, ok := j2.(*ssa.MapUpdate); ok && mu.Map == ssa.Value(par) {
+									written = "hands it to " + strings.TrimPrefix(fname(callee), "poly/") + ", which updates it"
+								}
+							})
+						}
+					}
+				}
+			})
+			if written != "" {
+				name := fv.Name()
+				c.bad("STATE", "go-shared-write:"+short1+"."+name, gi.Pos(), fmt.Sprintf("%s starts, in a loop, goroutines on a function literal that captures the map %s and %s with no lock: concurrent map writes lose updates or abort the program", short1, name, written))
+			}
+		}
 		for bi, b := range mc.Bindings {
 			al, ok := b.(*ssa.Alloc)
 			if !ok || bi >= len(fn.FreeVars) {
